@@ -49,7 +49,7 @@ REQUIRED = {
             "default-fallback": 50, "default-run": 50, "ic-false-after-true": 100, "signature-subsets-seen": 16},
     "C04": {"disengage-stop": 50, "expiry-finish-stop": 20, "cycle-restart": 20, "op-done": 20, "op-on_disable": 10,
             "in-state-done": 20, "machine-start": 100, "done-required-checked": 50, "nt-current_state-checked": 1000},
-    "C13": {"auto-ended-by-done": 20, "auto-ended-by-expiry": 20, "auto-disabled-midrun": 10, "auto-second-period": 20,
+    "C13": {"auto-last-timed-state-stay-checked": 2000, "auto-ended-by-done": 20, "auto-ended-by-expiry": 20, "auto-disabled-midrun": 10, "auto-second-period": 20,
             "auto-post-end-iteration": 50, "auto-twin-compared-iteration": 500},
 }
 
@@ -297,6 +297,7 @@ def _vf_body(self, name, args):
         else:
             tgt = getattr(type(self), act[1]) if act[2] else act[1]
             if k == "next":
+                self._vf_log.append(("user_next", name, act[1]))
                 self.next_state(tgt)
             else:
                 self._vf_log.append(("now", name, act[1]))
@@ -1008,6 +1009,7 @@ class AutoDriver:
                  for n, s in self.eff.items()}
         self.guide = Model(shape, auto=True, grid=case["grid"])
         self.dur = {n: case["pre_nt"].get(n, s["dur_us"]) for n, s in self.eff.items() if s["kind"] == "timed"}
+        self.stay = None        # [name, FPGA us of the first call, largest duration in force since] of a last timed state
 
     def ev(self, k, n=1):
         self.events[k] = self.events.get(k, 0) + n
@@ -1015,6 +1017,31 @@ class AutoDriver:
     def fail(self, kind, detail, op):
         self.violation = {"kinds": [kind], "first": kind, "detail": detail, "op": op, "time_us": self.now_us()}
         return False
+
+    def _last_state_rule(self, alog, now, op):
+        """Absolute rule, no twin and no timing model: a timed state without next_state whose first call of this stay was
+        at FPGA time t has expired (at the latest) once the clock is past t + duration - its clock cannot have started
+        later than its first call - so it must not be called then ('until ... the last timed state expires')."""
+        for e in alog:
+            if e[0] == "state":
+                s = self.eff[e[1]]
+                if s["kind"] == "default":
+                    continue
+                if s["kind"] == "timed" and s.get("next") is None:
+                    st = self.stay
+                    if st is not None and st[0] == e[1]:
+                        self.acc.checks += 1
+                        self.ev("auto-last-timed-state-stay-checked")
+                        if now > st[1] + st[2]:
+                            return self.fail("ran-past-expiry", f"last timed state {e[1]} (duration {st[2]} us, no next_state) first ran at "
+                                             f"{st[1]} us and is still being called at {now} us", op)
+                    else:
+                        self.stay = [e[1], now, self.dur[e[1]]]
+                else:
+                    self.stay = None
+            else:
+                self.stay = None
+        return True
 
     def apply(self, op):
         a, t = self.auto.m, self.twin.m
@@ -1029,9 +1056,12 @@ class AutoDriver:
             self.auto.nt_write(op[1], op[2])
             self.twin.nt_write(op[1], op[2])
             self.dur[op[1]] = op[2]
+            if self.stay is not None and self.stay[0] == op[1]:
+                self.stay[2] = max(self.stay[2], op[2])
             return True
         try:
             if k == "on_enable":
+                self.stay = None
                 a.on_enable()
                 t.done()
                 t._vf_counts = dict(a._vf_counts)
@@ -1049,6 +1079,7 @@ class AutoDriver:
                 return self._post(op, expect_running=False)
             if k in ("on_disable", "done"):
                 was = not self.ended
+                self.stay = None
                 getattr(a, k)()
                 t.done()
                 if was:
@@ -1079,6 +1110,8 @@ class AutoDriver:
         a.on_iteration(op[1])
         alog = list(self.auto.log)
         acalls = [(e[1], e[2]) for e in alog if e[0] == "state"]
+        if not self._last_state_rule(alog, now, op):
+            return False
         if self.ended:
             self.post_end += 1
             self.ev("auto-post-end-iteration")
